@@ -10,7 +10,7 @@ provenance with the written file.
 """
 import sys
 
-from .. import core
+from .. import core, pipeline
 from . import common_univ
 
 KINDS = {'spurious', 'unowned', 'multi', 'wrongid', 'wrongprov', 'crash'}
@@ -57,6 +57,9 @@ def main():
     ids = sorted(recs)
     for tid in ids[:1] + ids[len(ids) // 2:len(ids) // 2 + 2]:
         chk.sample({'deck_text': recs[tid]['text'], 'opts': meta[tid]['opts'], 'verdict': verdicts.get(tid)})
+    sub = [nd[t] for t in sorted(nd)][::max(1, len(nd) // 250)]
+    pipeline.check_decks(chk, sub, lambda d, r: [[f for f in common_univ.FLAGS if r.random() < 0.4]], chk.seed)
+    chk.cov['traces_validated_against_impl'] += chk.extra.get('pipeline_traces', 0)
     chk.extra['rule'] = ('distinct = distinct (abstract deck, option set); non-trivial = at least one FILL with a '
                          'non-identity transformation and at least one probe point owned through a filler cell')
     chk.extra['exhaustive'] = False
